@@ -139,23 +139,34 @@ def run(ctx):
     impl.load()
     rng = ctx.rng("c05")
     ctx.rule = ("random expression trees to depth 6 over the 12 infix and 4 prefix operators, leaves = integer literals in every "
-                "spelling, constant symbols defined before or after the use, labels, '.', character and ^R literals; printed with "
+                "spelling, constant symbols defined before or after the use (one from a label that comes later), labels, '.', character and ^R literals; printed with "
                 "exactly the brackets C-like precedence needs in the styles ( ) < > ^x..x; value read from the symbol table (unbounded). "
                 "distinct = distinct source lines; non-trivial = at least one operator")
     n = 6000 if ctx.thorough else 1500
-    base = 0o2000
     cases = []
     for i in range(n):
         depth = rng.choice([1, 2, 2, 3, 3, 4, 5, 6])
-        # symbols: constants before / after, a label before (address-valued) and after
-        env = {"ca": rng.randrange(-50, 1000), "cb": rng.choice([3, 8, 0o177777, -2]), "late": rng.randrange(1, 5000), "lbl": base + 4, "after": base + 12}
+        # a third of the programs has no '.link': addresses stay symbolic in the (default) base until the
+        # end, so the same expressions run through the polynomial arithmetic of the lazy engine
+        nolink = rng.random() < 0.33
+        base = 0o1000 if nolink else 0o2000
+        # symbols: constants before / after, a label before (address-valued) and after, and a constant
+        # defined before the use from a label that only comes later
+        k_fl = rng.randrange(1, 9)
+        env = {"ca": rng.randrange(-50, 1000), "cb": rng.choice([3, 8, 0o177777, -2]), "late": rng.randrange(1, 5000), "lbl": base + 4, "after": base + 12,
+               "fl": base + 12 + k_fl}
         syms = set(env) if rng.random() < 0.8 else set()
         tree = gen_tree(rng, depth, syms)
         text = render(tree, rng)
         pre = "ca = %s\ncb = %s\n.word 0, 0\nlbl: .word 0, 0\n" % (num(env["ca"], rng), num(env["cb"], rng))
-        # statement sits at base + 8; it emits nothing (an assignment), `after` follows 4 bytes later
-        src = ".link %d.\n%sres = %s\n.word 0, 0\nafter: .word 0\nlate = %d.\n" % (base, pre, text, env["late"])
+        # statement sits at base + 8; it emits nothing (an assignment), `after` follows 4 bytes later. 'fl' is
+        # defined right after 'res' (so that 'res' is the first to evaluate it) from the label that follows
+        # half of the programs also use the value in code (at the very end, so that no address moves): the
+        # engine then evaluates it while the image is computed, not in the final pass over the symbols
+        used = ".word 177777 & res\n" if rng.random() < 0.5 else ""
+        src = "%s%sres = %s\nfl = after + %d.\n.word 0, 0\nafter: .word 0\nlate = %d.\n%s" % ("" if nolink else ".link %d.\n" % base, pre, text, k_fl, env["late"], used)
         dot = base + 8
+        ctx.count("no-link programs" if nolink else "link-first programs")
         cases.append((tree, text, src, env, dot))
     reqs = []
     for tree, text, src, env, dot in cases:
